@@ -137,6 +137,11 @@ def all_cases(tier: str) -> list:
                 out.append({"late": True, "async": is_async, "optional": opt, "state": state})
                 out.append({"late_local": True, "async": is_async, "optional": opt, "state": state})
                 out.append({"wrapped": True, "async": is_async, "optional": opt, "state": state})
+            if is_async:
+                # a coroutine function that wraps (functools.wraps) a PLAIN function - e.g. a decorator that runs blocking code in a
+                # worker thread: it is a coroutine function, so its resources come from the asynchronous lookup
+                for state in ("static", "missing", "afactory"):
+                    out.append({"wrapped": True, "mixed": True, "async": True, "optional": opt, "state": state})
     # injected functions called from a component's start(): the current context is a ComponentContext, whose non-optional
     # asynchronous lookup waits for a sibling's publication
     for is_async in (False, True):
@@ -351,13 +356,14 @@ class C19:
                    f"f, TheSvc = build()\n")  # (the class is deliberately NOT a module-level name called Svc)
         else:
             ann = "Optional[Svc]" if case["optional"] else "Svc"
-            aw = "await " if case["async"] else ""
+            aw = "await " if case["async"] and not case.get("mixed") else ""
+            inner_d = "def" if case.get("mixed") else d
             src = (f"import functools\nfrom typing import Optional\nfrom asphalt.core import inject, resource\n"
                    f"class Svc:\n    pass\n"
                    f"def logged(fn):\n"
                    f"    @functools.wraps(fn)\n    {d} wrapper(*args, **kwargs):\n        CALLS.append(fn.__name__)\n        return {aw}fn(*args, **kwargs)\n"
                    f"    return wrapper\n"
-                   f"@inject\n@logged\n{d} f(r: {ann} = resource()):\n    REC.append(r)\n    return 'ret'\n")
+                   f"@inject\n@logged\n{inner_d} f(r: {ann} = resource()):\n    REC.append(r)\n    return 'ret'\n")
         ns: dict = {"REC": [], "CALLS": []}
         try:
             with warnings.catch_warnings():
@@ -369,11 +375,22 @@ class C19:
         async with Context() as ctx:
             if case["state"] == "static":
                 ctx.add_resource(Svc(), types=Svc)
+            elif case["state"] == "afactory":
+                async def make_svc() -> Any:
+                    return Svc()
+
+                ctx.add_resource_factory(make_svc, types=Svc)
             kw = {"optional": True} if case["optional"] else {}
-            try:
-                exp: Any = ("ok", (await get_resource(Svc, **kw)) if case["async"] else get_resource_nowait(Svc, **kw))
-            except ResourceNotFound:
-                exp = ("exc", "ResourceNotFound")
+
+            async def explicit() -> Any:
+                try:
+                    return ("ok", (await get_resource(Svc, **kw)) if case["async"] else get_resource_nowait(Svc, **kw))
+                except ResourceNotFound:
+                    return ("exc", "ResourceNotFound")
+
+            exp: Any = None
+            if case["state"] != "afactory":
+                exp = await explicit()
             try:
                 r = f()
                 if case["async"]:
@@ -381,6 +398,9 @@ class C19:
                 got: Any = ("ok", r)
             except BaseException as e:  # noqa: BLE001
                 got = ("exc", type(e).__name__)
+            if exp is None:
+                # (with a factory the injected call comes first: it is the call that has to generate the resource)
+                exp = await explicit()
             what = "late_local" if "late_local" in case else "wrapped"
             if exp[0] == "exc":
                 if got != exp:
